@@ -44,6 +44,8 @@ def stepLine (st : DState) (line : String) : DState × String :=
   | ["mon.c12.genesis-nul"] => (st, "pass")       -- identifiers with the x/nft key delimiter never get into the state: C12
   | ["mon.c05.genesis-seq-wrap"] => (st, "pass")  -- a deactivated DID is never creatable again: C05
   | ["mon.c05.seq-exhaustion", _] => (st, "pass")  -- the same at the end of the sequence space reached by updates
+  | ["mon.c17.endblock-not-halted"] => (st, "pass")  -- C17: crafted transactions cannot make the end-blocker panic
+  | ["mon.c07.module-account-recipient"] => (st, "pass")  -- the transit module account cannot be squatted: the end-blocker never halts
   | ["mon.c07.endblock-movers"] => (st, "pass")   -- whatever reaches the burn address while the block ends is burned in that block
   | ["mon.c15.fee-denoms"] => (st, "pass")   -- the whole declared fee moves, in every denomination: what C15 demands
   | "mon.c14.pair" :: _ => (st, "pass")
@@ -64,7 +66,7 @@ def stepLine (st : DState) (line : String) : DState × String :=
       | none => (st, "bad-op")
     else if tok = "ks.load" then (st, (ksStep toks).getD "bad-op")
     else if tok = "mon.c17" || tok = "mon.c17.f14" || tok.startsWith "mon.c20." ||
-        tok = "mon.c09.block" || tok = "mon.c09.genesis-spellings" || tok = "mon.c09.genesis-order" || tok = "mon.c10.block" || tok = "mon.c10.restart-after-handler" || tok = "mon.c19.upgrade" then
+        tok = "mon.c09.block" || tok = "mon.c09.parallelism" || tok = "mon.c09.genesis-spellings" || tok = "mon.c09.genesis-order" || tok = "mon.c10.block" || tok = "mon.c10.restart-after-handler" || tok = "mon.c10.stale-upgrade-info" || tok = "mon.c19.upgrade" then
       -- runtime monitors: the model's verdict is what the property demands (Properties/C09, C10, C19, C20)
       (st, "pass")
     else if tok.startsWith "bank." || tok = "endblock" || tok = "mon.c07.inv" then
